@@ -578,6 +578,15 @@ class Unit:
                     eds.append((n["span"][0], b, "", None))
                     eds.append((a1, n["span"][1], "", None))
                     self._log("E15b", src, a0, "tokio::spawn(async move {..});", "the task's body as a block in place")
+        # E16: `A[i..].copy_from_slice(S)` (a mutable tail of a local array as the receiver: Verus has no
+        # mutable range index) -> `crate::copy_into_tail(&mut A, i, S)`, an env function with the std
+        # semantics (panics unless i <= N and S.len() == N - i; afterwards A = A[..i] ++ S)
+        for n in nodes:
+            if n["k"] == "mcall" and n["name"] == "copy_from_slice" and n["nargs"] == 1:
+                m = re.match(r"^(\w+)\[(.+)\.\.\]$", src.text(*n["recv"]).strip(), re.S)
+                if m:
+                    eds.append((n["recv"][0], n["open"] + 1, f"crate::copy_into_tail(&mut {m.group(1)}, {m.group(2)}, ", None))
+                    self._log("E16", src, n["recv"][0], src.text(n["recv"][0], n["open"] + 1), "crate::copy_into_tail(&mut A, i, ")
         # E3
         for n in nodes:
             if n["k"] == "macro" and n["path"].split("::")[-1] == "select":
